@@ -49,10 +49,11 @@ type State struct {
 	atomicOps []string
 	plainOps []string
 	leftLoop bool // dry-run marker: this state does not flow back to the loop head
+	entryLen int  // number of path-condition conjuncts that describe the entry state (requires, repinv, axioms)
 }
 
 func (st *State) clone() *State {
-	n := &State{epoch: st.epoch, wm: st.wm, ctl: st.ctl, label: st.label, rets: st.rets, retSite: st.retSite, old: st.old}
+	n := &State{epoch: st.epoch, wm: st.wm, ctl: st.ctl, label: st.label, rets: st.rets, retSite: st.retSite, old: st.old, entryLen: st.entryLen}
 	n.vars = make(map[types.Object]*Val, len(st.vars))
 	for k, v := range st.vars {
 		n.vars[k] = v
